@@ -139,7 +139,7 @@ MembersC20(ev) ==
                                    /\ r.contains[p[1]] # r.contains[p[2]]}
       reg == TLCEval({i \in I : ~OrderIrregular(ev.eco, S2C(ev.texts[i]))})
       C(r) == {i \in reg : r.contains[i]}
-      cvbad(r) == IF ~r.convex THEN {}
+      cvbad(r) == IF ~r.convex \/ RangeOrderIrregular(ev.eco, r.text) THEN {}
                   ELSE {j \in reg \ C(r) : /\ \E i \in C(r) : same(i, j) /\ M[i][j] <= 0
                                           /\ \E k \in C(r) : same(k, j) /\ M[j][k] <= 0}
       below(r, j) == CHOOSE i \in C(r) : same(i, j) /\ M[i][j] <= 0
